@@ -498,3 +498,26 @@ def build_control():
     if r.returncode != 0:
         raise FactsError("control crate failed to build: " + r.stderr[-1500:])
     return out
+
+
+def run_witness():
+    """compile-fail witnesses: doc tests of /verif/witness against the current tree's harper-core
+    (nightly, because the error codes of `compile_fail,E....` are only checked there).
+    returns list of (test name, kind, ok)"""
+    src = os.path.join(VERIF, "witness")
+    work = os.path.join(CACHE, "witness-src")
+    shutil.rmtree(work, ignore_errors=True)
+    shutil.copytree(src, work, ignore=shutil.ignore_patterns("target", "Cargo.lock"))
+    toml = open(os.path.join(work, "Cargo.toml")).read().replace('"/repo/harper-core"', '"%s/harper-core"' % REPO)
+    open(os.path.join(work, "Cargo.toml"), "w").write(toml)
+    shutil.copyfile(os.path.join(REPO, "Cargo.lock"), os.path.join(work, "Cargo.lock"))
+    env = dict(os.environ, CARGO_NET_OFFLINE="true", CARGO_TARGET_DIR=os.path.join(CACHE, "witness-tgt"))
+    env.pop("RUSTC_WRAPPER", None)
+    r = subprocess.run("cargo +nightly test --doc --offline", shell=True, cwd=work, env=env, stdout=subprocess.PIPE, stderr=subprocess.PIPE, text=True)
+    out = []
+    import re as _re
+    for m in _re.finditer(r"^test src/lib\.rs - (\S+) \(line \d+\) - (compile fail|compile) \.\.\. (\w+)", r.stdout, _re.M):
+        out.append((m.group(1), m.group(2), m.group(3) == "ok"))
+    if not out:
+        raise FactsError("witness doc tests did not run: " + (r.stderr[-1500:] or r.stdout[-500:]))
+    return out
